@@ -80,6 +80,10 @@ SAME = [
         "match other._array:\n    case None:\n        self.p.empty()\n    case np.ndarray():\n        self.p.array = other.array\n    case _:\n        self.p.array_3d = other.array_3d",
         "c = other._array\nif c is None:\n    self.p.empty()\n    return\nif isinstance(c, np.ndarray):\n    self.p.array = other.array\n    return\nself.p.array_3d = other.array_3d",
     ]),
+    ("raise X == raise X(...); tuple unpacking; staticmethod helper; argument of the call that stores", [
+        "if not isinstance(other, np.ndarray):\n    raise TypeError\nsuper().__init__(shape=(other.row, other.col))",
+        "if not self._nd(other):\n    raise TypeError('no array')\nr, c = other.row, other.col\nsuper().__init__(shape=(r, c))",
+    ]),
     ("helper returning a value", [
         "if np.any(other < 0):\n    other = np.clip(other, 0, None)\n    warnings.warn('x')\nself._array = other.copy()",
         "other = _clip(other)\nself._array = other.copy()",
@@ -107,6 +111,8 @@ DIFFERENT = [
     ("possibly raising alias moved in front of a guard",
      "if not isinstance(other, np.ndarray):\n    raise TypeError()\nif other.dtype not in self.TYPE_LIST:\n    raise ValueError()",
      "dt = other.dtype\nif not isinstance(other, np.ndarray):\n    raise TypeError()\nif dt not in self.TYPE_LIST:\n    raise ValueError()"),
+    ("alias of object state read after unknown code ran in the same statement",
+     "self.push(self.reset_all(), self._array)", "cur = self._array\nself.push(self.reset_all(), cur)"),
     ("or is not and",
      "if self._a is None or other._a is None:\n    return 0\nreturn 1", "if self._a is None and other._a is None:\n    return 0\nreturn 1"),
 ]
